@@ -23,7 +23,7 @@
    the IGNORECASE compilation of a literal, so that what is assumed shrinks to
    the search loop of `finditer` (leftmost, non-overlapping). *)
 From Coq Require Import ZArith List Bool.
-From PTK Require Import Lib.Sx Lib.Py Model.Document Gen.C16_CaseFold Model.C16_Regex.
+From PTK Require Import Lib.Sx Lib.Py Model.Document Gen.C16_CaseFold Model.C16_Regex Model.C16_ReFind.
 Import ListNotations.
 Open Scope Z_scope.
 
@@ -566,6 +566,18 @@ Definition run_C16 (c : sx) : sx :=
       match as_str pat with
       | Some p => run_regex p
       | None => bad_case
+      end
+  | L [A 8; t; nd; A ic] =>
+      (* re.finditer(re.escape(nd), t, flags): the start of every match; then
+         Document(t, cu).find / find_backwards written over it, for cu = len t / 2 *)
+      match as_str t, as_str nd, as_bool (A ic) with
+      | Some t', Some nd', Some ic' =>
+          let d := mkdoc t' (len t' / 2) in
+          L [sx_opt (sx_list sx_Z) (re_finditer (re_escape nd') t' ic');
+             sx_opt (sx_opt sx_Z) (doc_find_re d nd' false ic' 1);
+             sx_opt (sx_opt sx_Z) (doc_find_re d nd' true ic' 2);
+             sx_opt (sx_opt sx_Z) (doc_find_backwards_re d nd' ic' 1)]
+      | _, _, _ => bad_case
       end
   | L [A 6; A p; A t] =>
       if (0 <=? p) && (0 <=? t) then L [sx_bool (ceq_fast p t); sx_bool (ceq_fast t p)] else bad_case
